@@ -65,9 +65,10 @@ encoders); each became a generated class, except a Drop before Close through the
 of the repository refuses with a panic. Round 4: %d of its %d confirmed changes were missed at first (a validator cut off for more than 100 frames, an index
 object that served a group of another size before, frame-independent event IDs, an application that keeps editing its builders, a built
 and abandoned attempt at the same epoch, unverified Lamport claims, Clear during a cascade, full task queues, 16+ peers, flushes above
-100 KiB, repeated flush IDs); one of them (C03-8: consecutive Atropoi with non-nested views of a fork) is still NOT caught - a class
-counter and a generator mode were added for it, but 7000 generated DAGs did not contain the shape - and three are caught in the thorough
-tier only (C01-8, C05-8, C28-8). One round-4 delivery (%s) could not be confirmed (its demonstration passes with the change applied in
+100 KiB, repeated flush IDs, consecutive Atropoi with non-nested views of a fork); the last one (C03-8) was not reached by the random
+generator even after a class counter and a generator mode had been added for it (7000 DAGs without a block whose cheater list is shorter
+than the previous one's), so a constructed family of DAGs was added as its own unit (TestC03SplitView; 99%% of its cases contain such
+blocks); three are caught in the thorough tier only (C01-8, C05-8, C28-8). One round-4 delivery (%s) could not be confirmed (its demonstration passes with the change applied in
 re-validation) and is not counted. In round 2 I also strengthened some generators after reading the seeding agent's
 summary but *before* the first evaluation (C02 long epochs, C03 retained cheater lists and Reset, C04 deep lag, C05 index reuse after
 Reset, C06 two parents of one forker, C09 Reset to the current epoch, C11 RLP-decoded sets, C12 large sets, C13 long-lived checkers):
